@@ -583,8 +583,32 @@ func c13KeysBelowTheRootNamedLikeSteps(c *Ctx) {
 	}
 }
 
+// c13SchemasRevisited: schemas that declare the same paths with other types, validated in turn and then again (S1, S2, S1, S2, S1):
+// what a path is found to be is a matter of the schema that is given, not of the one that was given before
+func c13SchemasRevisited(c *Ctx) {
+	st := func(fs ...*CField) *CTy { return &CTy{T: "struct", F: fs} }
+	fld := func(n string, t *CTy) *CField { return &CField{N: n, M: "reg", Ty: t} }
+	prim := func(t string) *CTy { return &CTy{T: t} }
+	s1 := st(fld("a", st(fld("x", prim("string")), fld("b", st(fld("c", prim("int")))))), fld("input", st(fld("name", prim("string")))))
+	s2 := st(fld("a", st(fld("x", prim("int")), fld("y", prim("bool")), fld("b", st(fld("c", prim("string")), fld("d", st(fld("e", prim("string")))))))), fld("input", st(fld("name", prim("bool")))))
+	s3 := st(fld("a", st(fld("x", prim("bool")), fld("b", prim("string")))), fld("input", st(fld("name", prim("int")), fld("more", prim("string")))))
+	roots := []*CTy{s1, s2, s3}
+	var txts []string
+	for _, r := range roots {
+		txts = append(txts, cueSchemaText(&cueGen{}, r))
+	}
+	paths := [][]string{{"a", "x"}, {"a", "y"}, {"a", "b", "c"}, {"a", "b", "d", "e"}, {"a", "b"}, {"input", "name"}, {"input", "more"}, {"a"}}
+	for _, k := range []int{0, 1, 0, 1, 0, 2, 0, 2, 1, 0} {
+		for _, p := range paths {
+			expect, unspec := specWalk(roots[k], p)
+			c.cueDo(cueCase{S: roots[k], P: p, CP: "", Dom: !unspec, Q: "$." + strings.Join(p, "."), Txt: txts[k]}, "schemas-revisited", expect, unspec)
+		}
+	}
+}
+
 func genC13(c *Ctx) {
 	c13KeysBelowTheRootNamedLikeSteps(c)
+	c13SchemasRevisited(c)
 	c.Rule = "random CUE schemas from a type-tree generator (closed and open structs to depth 4; fields string/bytes/bool/int/float/number/_; lists of those and of structs; regular, optional ?, required !, quoted, hidden _x and definition-typed fields), each rendered as CUE text; per schema every declared key path (sampled when there are many) plus one-key mutations (a key replaced by an undeclared one, an undeclared or misplaced key appended), validated by the real CueValidate with and without a current step; oracle: accept with the declared (type, Single|Array) iff every key names a declared field, reject otherwise (any message), open structs and _ accept any further key as Any; a key after a list of lists is rejected; keys applied to the ELEMENTS of a list of structs or of `_` (after First / Last / Index(0), and as the key of a filter condition; open lists `[...T]` and closed lists `[T]`): a declared element field is accepted with its own kind, an undeclared one rejected, open element structs and `_` elements accept any key as Any; unspecified by the property and excluded from the oracle: hidden fields marked ?/!, keys differing only in case, the kind reported for a list of lists. distinct = distinct (class, path length, node kinds along the path, verdict); non-trivial = verdict is not the most common one"
 	n := c.scale(700, 7000)
 	for i := 0; i < n; i++ {
